@@ -336,6 +336,12 @@ theorem step_safe (c : Cfg) (t : Nat) (hI : RcInv c) (hw : AllWf c) (hb : c.bad 
             h o hp hheld rfl rfl
           simp only [hheld, hal, Bool.not_true, Bool.false_eq_true, if_false]
           exact ⟨hI'.transfer rfl rfl rfl (by simp [hp]), allWf_set hw t _ (by simpa [wfThr] using hrest) _ rfl, by first | trivial | rfl | exact hb⟩
+        | use o =>
+          simp only [wfProg, Bool.and_eq_true] at hwt
+          obtain ⟨hheld, hrest⟩ := hwt
+          obtain ⟨hal, _⟩ := inv_inc hI t th h o hp hheld rest
+          simp only [hheld, hal, Bool.not_true, Bool.false_eq_true, if_false]
+          exact ⟨(hI.frame t th { prog := rest, held := th.held, pending := none, tmp := th.tmp } h rfl hp.symm c.ctr c.mtx c.vars).transfer rfl rfl rfl rfl, allWf_set hw t _ (by simpa [wfThr] using hrest) _ rfl, by first | trivial | rfl | exact hb⟩
         | add k d =>
           simp only [wfProg] at hwt
           dsimp only
@@ -526,6 +532,14 @@ theorem ctr_conserved (c : Cfg) (t k : Nat) (hk : k < c.ctr.length) :
               · rfl
               · have := hr ⟨rest, th.held.erase o, (if c.rc.getD o 0 - 1 = 0 then some o else none), th.tmp⟩ rfl
                 simp only [addsOf] at this; simp only at this ⊢; omega
+          | use o =>
+            dsimp only
+            split
+            · rfl
+            · split
+              · rfl
+              · have := hr { th with prog := rest } rfl
+                simp only [addsOf] at this; simp only [hp] at this ⊢; omega
           | add k' d =>
             dsimp only
             have := hr { th with prog := rest } rfl
@@ -566,11 +580,40 @@ theorem step_ctr_length (c : Cfg) (t : Nat) : (step c t).ctr.length = c.ctr.leng
         · rfl
         · split <;> (try split) <;> simp [length_upd]
         · split <;> (try split) <;> simp [length_upd]
+        · split <;> (try split) <;> rfl
         · simp [length_upd]
         · split <;> rfl
         · rfl
         · rfl
         · rfl
+
+theorem step_alive_length (c : Cfg) (t : Nat) : (step c t).alive.length = c.alive.length := by
+  unfold step
+  split
+  · rfl
+  · split
+    · rfl
+    · split
+      · split <;> simp
+      · split
+        · rfl
+        · split <;> (try split) <;> rfl
+        · split <;> (try split) <;> rfl
+        · split <;> (try split) <;> rfl
+        · rfl
+        · split <;> rfl
+        · rfl
+        · rfl
+        · rfl
+
+theorem run_alive_length (s : List Nat) (c : Cfg) : (run c s).alive.length = c.alive.length := by
+  induction s generalizing c with
+  | nil => rfl
+  | cons t s ih =>
+    unfold run
+    by_cases he : enabled c t = true
+    · simp only [he, if_true]; rw [ih, step_alive_length]
+    · simp only [he]; exact ih c
 
 theorem ctr_run (s : List Nat) (c : Cfg) (k : Nat) (hk : k < c.ctr.length) :
     (run c s).ctr.getD k 0 + remaining (run c s).thrs k = c.ctr.getD k 0 + remaining c.thrs k := by
